@@ -371,6 +371,25 @@ def grid_sources():
         out.append("std.member([1], %s)" % a)
         out.append("std.count([1], %s)" % a)
         out.append('std.manifestJsonEx([1], std.repeat(" ", std.abs(%s) %% 5))' % (a if a not in ("null", '"1"') else "1"))
+    # escapes in every pairing (high / low / non-surrogate) inside JSON and YAML strings and Jsonnet literals; blanks of every kind
+    # around JSON tokens; every code point up to U+00A1 through the escaping functions
+    hi, lo, bmp = ["\\ud83d", "\\uD800", "\\udbff"], ["\\ude00", "\\uDC00", "\\udfff"], ["\\u0041", "x", ""]
+    for a in hi + lo + bmp:
+        for b in hi + lo + bmp:
+            for c in ("", "\\udc00", "\\ud800"):
+                doc = '\\"' + a.replace("\\", "\\\\") + b.replace("\\", "\\\\") + c.replace("\\", "\\\\") + '\\"'
+                out.append('std.parseJson("%s")' % doc)
+                out.append('std.parseYaml("%s")' % doc)
+                out.append('"%s%s%s"' % (a, b, c))
+                out.append('std.length("%s%s%s")' % (a, b, c))
+    for w in ["\\u000b", "\\u000c", "\\u0085", "\\u00a0", "\\u2028", "\\u3000", "\\ufeff", "\\u0000", " ", "\\t"]:
+        for tmpl in ("%s1", "1%s", "[1%s, 2]", "[1, 2]%s", '{\\"a\\"%s: 1}', '{\\"a\\": 1}%s'):
+            out.append('std.parseJson("%s")' % (tmpl % w))
+            out.append('std.parseYaml("%s")' % (tmpl % w))
+    for cp in range(0, 0xA2):
+        for f in ("escapeStringJson", "escapeStringPython", "escapeStringBash", "escapeStringDollars", "escapeStringXML", "toString", "manifestJson",
+                  "manifestYamlDoc", "manifestPython", "asciiUpper", "codepoint", "encodeUTF8", "md5", "base64"):
+            out.append('std.%s("\\u%04x")' % (f, cp))
     # the known sourceannot finding and its neighbours: zero-width characters where an error is reported
     for z in ["\u0339", "\u0301", "\u200b", "\u200d", "\ufeff", "\u202e", "\u00ad", "\u0000", "\u0008", "\u007f", "\u0085"]:
         out.append(("RAW", z))
